@@ -56,9 +56,26 @@ func VP_PDF_hl() {
 		prefix = "HELLO;"
 	case 5:
 		prefix = "1;;;;"
+	case 6:
+		prefix = "hello" // text run ending in the Lower sub-mode
+	case 7:
+		prefix = "ab12#" // ... in Mixed
+	case 8:
+		prefix = "Ab;;;;" // ... in Punctuation
+	}
+	// a concrete continuation: what the encoder remembers across the symbolic bytes (sub-mode after
+	// a shifted byte, pending digits) only shows in what follows them
+	suffix := ""
+	switch vpConfig("suffix") {
+	case 1:
+		suffix = "worlds"
+	case 2:
+		suffix = "WORLDS"
+	case 3:
+		suffix = ";;;;;;"
 	}
 	raw := vpString("d", n)
-	data := prefix + raw
+	data := prefix + raw + suffix
 	cw, err := highlevelEncode(data)
 	vpAssert(err == nil, "every byte string has a high-level encoding")
 	if err != nil {
